@@ -466,8 +466,23 @@ class Crate:
         st = self.structs.get(t) if t else None
         if not st:
             return None
-        ftys = [fl['ty'].replace(' ', '') for fl in st.get('fields', []) if fl.get('name')]
-        return t if any(x.endswith('Module') or 'WriteOptions' in x for x in ftys) else None
+        import re as _re
+        ftys = [_re.sub(r"'\w+\s*", '', fl['ty']).replace(' ', '') for fl in st.get('fields', []) if fl.get('name')]
+        # .. or a bundle of the call's own text arguments (`ShaderSource { wgsl_source: &str, wgsl_include_path: Option<&str> }`)
+        return t if any(x.endswith('Module') or 'WriteOptions' in x or x in ('&str', 'Option<&str>') for x in ftys) else None
+
+    def receives(self, q, sub):
+        """function q is handed a value whose type mentions `sub`: as a parameter, or as a field of a parameter that is a crate struct"""
+        f = self.fns[q]
+        for p_ in f['params']:
+            ty = p_['ty'].replace(' ', '')
+            if sub in ty:
+                return True
+            t = self.crate_type_in(f['mod'], p_['ty'])
+            st = self.structs.get(t) if t else None
+            if st and any(sub in fl['ty'].replace(' ', '') for fl in st.get('fields', [])):
+                return True
+        return False
 
     def method_at(self, file, line, name):
         """the crate method that the method call `.name(..)` starting on `line` of `file` resolves to, taken from the resolved MIR (Engine B's
